@@ -8,6 +8,10 @@ evaluates earlier (a sibling to the left) is order-sensitive with respect to the
                 earlier operand reads a variable that the hoisted part assigns through `:=` (it sees the new value); an
                 earlier `v := e` counts as a read of v, because the builder leaves just the name v in its place
   chain-middle  a chained comparison whose middle operand makes a call or assigns (`a < g(x) < b` evaluates g twice)
+  reflected-compare  (visible only at the checked-program level, E5) a comparison whose left operand has the narrower numeric type
+                (int vs. float) is resolved through the *reflected* comparison of the right operand, whose call takes the operands in
+                swapped order: `f(5) < ff(6)` calls ff before f.  Region: a comparison with an opaque int-valued call on the left
+                and the opaque float-valued call `ff` on the right.
 `tags(src)` returns the set of tags that apply anywhere in the program."""
 from __future__ import annotations
 
@@ -80,6 +84,13 @@ def tags(src: str) -> set:
             for a, b in zip(ops[:-1], ops[1:]):
                 if _sensitive(a, b):
                     out.add("hoist-order")
+        if isinstance(n, ast.Compare):
+            ops = [n.left, *n.comparators]
+            for a, b in zip(ops[:-1], ops[1:]):
+                fa = {m.func.id for m in ast.walk(a) if isinstance(m, ast.Call) and isinstance(m.func, ast.Name)}
+                fb = {m.func.id for m in ast.walk(b) if isinstance(m, ast.Call) and isinstance(m.func, ast.Name)}
+                if fa and "ff" not in fa and "ff" in fb:
+                    out.add("reflected-compare")
         kids = _ordered_children(n)
         if kids:
             for j in range(1, len(kids)):
